@@ -53,7 +53,10 @@ fn main() {
         "C12" => g_pp::gen_c12(seed, thorough, only, &mut out),
         "C13" => g_pp::gen_c13(seed, thorough, only, &mut out),
         "C14" => g_pp::gen_c14(seed, thorough, only, &mut out),
-        "C15" => g_pp::gen_c15(seed, thorough, only, &mut out),
+        "C15" => {
+          g_pp::gen_c15(seed, thorough, only, &mut out);
+          g_pp::gen_json(seed, thorough, &mut out);
+        }
         "C07" => g_fp::gen(seed, thorough, only, &mut out),
         _ => {
           eprintln!("unknown property {}", prop);
